@@ -94,18 +94,20 @@ def families(tier):
     full = {"D": "1..2", "P": "1..2", "OpenModes": ALL_OPEN, "WriteModes": ALL_WRITE, "Nested": "TRUE"}
     core = {"D": "1..2", "P": "1..1", "OpenModes": '{"a", "copy", "r"}', "WriteModes": '{"a", "w"}', "Nested": "FALSE"}
     rich = "{" + ", ".join(script(*p) for p in RICH) + "}"
+    rich_b = "{" + ", ".join(script(*p) for p in (P_TWO_MEM, P_HANDLE_AND_MEM)) + "}"
     if tier == "quick":
         return [
-            ("full3", dict(full, Scripts="{<<>>}", MaxSteps=3), None),
-            ("rich2", dict(full, Scripts=rich, MaxSteps=2), None),
-            ("core4", dict(core, Scripts="{" + S_MEM_A + "}", MaxSteps=3), None),
-            ("deep", dict(full, D="1..3", Scripts="{<<>>}", MaxSteps=10), ("num=150", 11)),
+            ("full3", dict(full, Scripts="{<<>>}", MaxSteps=3), None),               # everything that can be done in 3 calls from nothing
+            ("rich1", dict(full, Scripts=rich, MaxSteps=1), None),                   # every single call from five rich states
+            ("rich2", dict(full, Scripts=rich_b, MaxSteps=2), None),                 # every two calls from two of them (sampled above the cap)
+            ("core3", dict(core, Scripts="{" + S_MEM_A + "}", MaxSteps=3), None),    # write / append / copy / read core on one path
+            ("deep", dict(full, D="1..3", Scripts="{<<>>}", MaxSteps=10), ("num=60", 11)),
         ]
     return [
         ("full4", dict(full, Scripts="{<<>>}", MaxSteps=4), None),
-        ("rich3", dict(full, Scripts=rich, MaxSteps=3), None),
-        ("core5", dict(core, Scripts="{" + S_MEM_A + "}", MaxSteps=5), None),
-        ("deep", dict(full, D="1..3", Scripts="{<<>>}", MaxSteps=14), ("num=3000", 15)),
+        ("rich2", dict(full, Scripts=rich, MaxSteps=2), None),
+        ("core4", dict(core, Scripts="{" + S_MEM_A + "}", MaxSteps=4), None),
+        ("deep", dict(full, D="1..3", Scripts="{<<>>}", MaxSteps=14), ("num=1500", 15)),
     ]
 
 
@@ -116,6 +118,7 @@ def gen_run(name, c, sim, seed, workers=None):
     kw = {}
     if sim:
         kw = {"simulate": sim[0], "depth": sim[1], "seed": seed + 1}
+        workers = 1                                  # one simulation worker: the run is deterministic for a seed
     r = lib.run_tlc_mc("DatasetStoreGen", defs, wd, constants={"MaxSteps": c["MaxSteps"], "Nested": c["Nested"], "Canon": "TRUE"},
                        init="GInit", next_="GNext", constraints=["Emit"], invariants=["TypeOK"], timeout=1500, workers=workers, **kw)
     if sim and r.rc != 0 and r.error and "rc=" not in (r.error or ""):
@@ -130,6 +133,7 @@ def gen_run(name, c, sim, seed, workers=None):
             j["exp"] = dsreplay.exp_to_obs(j["exp"])
             out.append(j)
     r.out, r.json_lines = "", []
+    out.sort(key=lambda j: json.dumps(j["hist"], sort_keys=True))
     nd = int(c["D"].split("..")[1])
     np_ = int(c["P"].split("..")[1])
     return r, out, nd, np_
@@ -184,7 +188,7 @@ def plan_for(hist, rng, terms, containers):
             if u < 0.70:
                 plan.append({"k": rng.choice(V.CHEAP), "ch": []})
             elif u < 0.88:
-                plan.append({"k": rng.choice(("sparse", "op", "ham", "pytree", "sparse", "op", "ham", "pytree", "mol")), "ch": []})
+                plan.append({"k": rng.choice(("sparse", "op", "ham", "pytree") * 5 + ("mol",)), "ch": []})
             else:
                 plan.append(containers[rng.randrange(len(containers))])
     return plan
@@ -440,8 +444,11 @@ def run(tier, seed):
     tlc_trans = mc_res.generated + val_res.generated
 
     # ---- phase 2: jobs
-    caps = {"quick": {"full3": None, "rich2": 1500, "core4": 800, "deep": 150},
-            "thorough": {"full4": None, "rich3": 60000, "core5": 40000, "deep": 4000}}[tier]
+    scale = float(os.environ.get("VERIF_C64_SCALE", "1"))            # development only: shrink the sampled families
+    caps = {"quick": {"full3": None, "rich1": None, "rich2": 1200, "core3": 800, "deep": 150},
+            "thorough": {"full4": None, "rich2": None, "core4": 40000, "deep": 4000}}[tier]
+    if scale != 1:
+        caps = {k: int((v or 1000) * scale) for k, v in caps.items()}
     jobs, meta, groups = [], {}, []
     fam_info = {}
     jid = 0
@@ -483,7 +490,7 @@ def run(tier, seed):
     if tier == "quick":          # every term of depth <= 1, a seeded sample of the depth-2 terms (all of them in the thorough tier)
         shallow = [t for t in terms if term_depth(t) <= 1]
         deep2 = [t for t in terms if term_depth(t) > 1]
-        vterms = shallow + rng.sample(deep2, min(320, len(deep2)))
+        vterms = shallow + rng.sample(deep2, min(int(320 * scale), len(deep2)))
         exhaustive = False
     for t in vterms:
         job = {"id": jid, "hist": vhist, "plan": [t, {"k": rng.choice(V.CHEAP), "ch": []}], "seed": seed * 1000003 + jid, "obs_from": 0}
@@ -510,10 +517,16 @@ def run(tier, seed):
     verdict, controls = {}, []
     kinds = ["token", "stale", "file", "closed", "exc", "extra"]
     runs = []
+    shaped = []
     for (nd, np_), ids in sorted(by_shape.items()):
+        for k in range(0, len(ids), 20000):
+            shaped.append(((nd, np_), ids[k:k + 20000]))
+    first22 = True
+    for (nd, np_), ids in shaped:
         traces = [results[i]["trace"] for i in ids]
         ctl = []
-        if (nd, np_) == (2, 2):
+        if (nd, np_) == (2, 2) and first22:
+            first22 = False
             cand = [i for i in ids if not any(r["e"]["act"] in ("ReadDS", "WriteDS", "ReadPath") for r in results[i]["trace"])]
             rng.shuffle(cand)
             want = 30 if tier == "quick" else 120
@@ -524,8 +537,8 @@ def run(tier, seed):
                     traces.append(cr[0])
         runs.append((nd, np_, ids, traces, ctl))
     t2 = time.time()
-    with ThreadPoolExecutor(max_workers=len(runs)) as tp:
-        futs = [tp.submit(validate, traces, nd, np_, f"{nd}x{np_}", max(2, W // len(runs))) for nd, np_, ids, traces, ctl in runs]
+    with ThreadPoolExecutor(max_workers=min(4, len(runs))) as tp:
+        futs = [tp.submit(validate, traces, nd, np_, f"{nd}x{np_}_{k}", max(2, W // len(runs))) for k, (nd, np_, ids, traces, ctl) in enumerate(runs)]
         outs = [f.result() for f in futs]
     t_val = time.time() - t2
     neg_ok, neg_total = 0, 0
